@@ -386,6 +386,45 @@ theorem event_named_like_accessor (m : Machine) (dyn : Bool) (s : Name) (hs : s 
     apply List.mem_append_left
     exact List.mem_flatMap.mpr ⟨sp, hsp, by rcases hn with hn | hn <;> simp [hn]⟩
 
+/-! ### what the verdict does not depend on -/
+
+/-- **The modelled verdict of rustc is the same in every configuration**: `async`, the context mode and type, the
+    `dynamic:` key (as opposed to whether the wrapper is generated) never enter the naming conditions — a definition
+    that the rules accept as a synchronous machine with a generic context is accepted in the other shapes too. -/
+theorem namesOK_config (m : Machine) (dyn asy dm : Bool) (ctx : Option Ty) :
+    NamesOK { m with asyncMode := asy, context := ctx, dynamicMode := dm } dyn ↔ NamesOK m dyn := Iff.rfl
+
+theorem accepted_config (m : Machine) (dyn asy dm : Bool) (ctx : Option Ty) :
+    Static.accepted (codeOf { m with asyncMode := asy, context := ctx, dynamicMode := dm } dyn) =
+      Static.accepted (codeOf m dyn) := by
+  rw [Bool.eq_iff_iff, accepted_iff, accepted_iff]; exact namesOK_config m dyn asy dm ctx
+
+/-- hooks and payloads do not enter either: two machines with the same names, states, storage, hierarchy, event
+    names and the same (source, event) pairs in their graphs get the same verdict -/
+theorem namesOK_hooks (m m' : Machine) (dyn : Bool) (h1 : m'.name = m.name) (h2 : m'.initial = m.initial)
+    (h3 : m'.states = m.states) (h4 : m'.storage = m.storage) (h5 : m'.hierarchy = m.hierarchy)
+    (h6 : m'.events.map (·.name) = m.events.map (·.name))
+    (h7 : ∀ s, (m'.outgoing s).map (·.event) = (m.outgoing s).map (·.event)) :
+    NamesOK m' dyn ↔ NamesOK m dyn := by
+  have e1 : typeNamesOf m' dyn = typeNamesOf m dyn := by
+    simp [typeNamesOf, eventEnumName, anyStateName, dynamicName, h1, h3, h5]
+  have e2 : fieldsOf m' = fieldsOf m := by simp [fieldsOf, h4]
+  have e3 : ∀ s, methodsOf m' dyn s = methodsOf m dyn s := by
+    intro s
+    have : ∀ st, (m'.outgoing st).map (fun e => toSnake e.event) = (m.outgoing st).map (fun e => toSnake e.event) := by
+      intro st
+      have := congrArg (List.map toSnake) (h7 st)
+      simpa [List.map_map, Function.comp_def] using this
+    simp [methodsOf, h2, h3, h4, this]
+  have e4 : variantsOf m' = variantsOf m := by
+    have := congrArg (List.map toPascal) h6
+    simpa [variantsOf, List.map_map, Function.comp_def] using this
+  have e5 : pairsOf m' = pairsOf m := by simp [pairsOf, h3, h5]
+  have e6 : dynMethodsOf m' = dynMethodsOf m := by
+    have : genDynAcc m' = genDynAcc m := by funext sp; simp [genDynAcc, h3, h5]
+    simp [dynMethodsOf, h3, h4, this]
+  simp only [NamesOK, e1, e2, e3, e4, e5, e6, h3, h5]
+
 /-! ### non-vacuity: both sides of the characterisation are inhabited -/
 
 /-- two states `Up`, `Down`, one event: the naming conditions hold and the rules accept, with and without the wrapper -/
